@@ -598,6 +598,9 @@ def main():
     args = sys.argv[1:]
     build_engine()
     if args and args[0] == "--replay":
+        if len(args) < 2 or not os.path.exists(args[1]):
+            print("usage: check.py --replay /verif/replays/<file>.json (written next to every VIOLATION line)")
+            sys.exit(2)
         sys.exit(replay(args[1]))
     pid = args[0]
     tier = os.environ.get("VERIF_TIER", "quick")
